@@ -763,7 +763,7 @@ package route
 //@ spec fun depsReady() bool = counters.histogram != nil && counters.rxCounter != nil && counters.txCounter != nil && transport.cfg != nil
 //@
 //@ func (*Route).addTarget
-//@   props C02 C05 C13
+//@   props C02 C05 C13 C19
 //@   requires r != nil && targetURL != nil && depsReady() && routeOK(r)
 //@   assigns r.Targets, r.Targets[*], r.wTargets, Target.Weight, Target.accessRules, elems(interface{}), mapsOf(map[string][]interface{}), ioWrites, lastWrite
 //@   ensures nopanic
@@ -780,8 +780,12 @@ package route
 //@   at "r.weighTargets()" assert len(r.Targets) == len(old(r.Targets)) + 1 && r.Targets[len(r.Targets)-1] == t && fresh(t)
 //@   at "r.weighTargets()" assert forall i int :: 0 <= i && i < len(r.Targets) ==> r.Targets[i] != nil
 //@   at "r.weighTargets()" assert forall i int :: 0 <= i && i < len(r.Targets) - 1 ==> r.Targets[i] != t
+//@   at "r.weighTargets()" assert wfTargets(r.Targets)
+//@   at "r.weighTargets()" assert forall j int :: 0 <= j && j < len(r.Targets) ==> r.Targets[j].URL != nil
 //@   at "r.weighTargets()" assert routeOK(r)
 //@   at "r.weighTargets()" assert forall a *Route :: a != r ==> a.Targets == old(a.Targets)
+//@   // a route's own transport (host= on an https target) carries the configured upstream time limits, like the default one
+//@   ensures @C19 len(r.Targets) == len(old(r.Targets)) + 1 && r.Targets[len(r.Targets)-1].Transport != nil ==> r.Targets[len(r.Targets)-1].Transport.ResponseHeaderTimeout == transport.cfg.Proxy.ResponseHeaderTimeout && r.Targets[len(r.Targets)-1].Transport.IdleConnTimeout == transport.cfg.Proxy.IdleConnTimeout && r.Targets[len(r.Targets)-1].Transport.MaxIdleConnsPerHost == transport.cfg.Proxy.MaxConn && isMethodValue(r.Targets[len(r.Targets)-1].Transport.Dial, "(*net.Dialer).Dial") && boundRecv(r.Targets[len(r.Targets)-1].Transport.Dial, *net.Dialer).Timeout == transport.cfg.Proxy.DialTimeout && boundRecv(r.Targets[len(r.Targets)-1].Transport.Dial, *net.Dialer).KeepAlive == transport.cfg.Proxy.KeepAliveTimeout
 //@   // a redirect status is only ever a 3xx status: anything else in the redirect= option leaves the target a plain proxy target
 //@   ensures len(r.Targets) == len(old(r.Targets)) + 1 ==> r.Targets[len(r.Targets)-1].RedirectCode == 0 || (300 <= r.Targets[len(r.Targets)-1].RedirectCode && r.Targets[len(r.Targets)-1].RedirectCode <= 399)
 //@   loop 1 invariant forall j int :: 0 <= j && j <= rangeindex ==> !(r.Targets[j].Service == service && urlString(r.Targets[j].URL) == urlString(targetURL) && r.Targets[j].FixedWeight == fixedWeight && deepEqual(r.Targets[j].Tags, tags))
